@@ -246,6 +246,14 @@ pub open spec fn tr_generate_nonce(stream: spec_fn(nat) -> u8, pos: nat) -> (Sca
     if pt_y_odd(r) { (sc_neg(k), pt_neg(r), tr_rnz(stream, pos).1) } else { (k, r, tr_rnz(stream, pos).1) }
 }
 
+// single_sign (BIP-340 Sign with a fresh nonce): the secret key negated iff its public key has odd Y, then plain Schnorr with the even-Y nonce
+// of generate_nonce and the BIP-340 challenge:  (R, k + e*d)
+pub open spec fn tr_single_sign(sk: SigningKey<TR>, stream: spec_fn(nat) -> u8, pos: nat, m: Seq<u8>) -> Signature<TR> {
+    let d = even_sc(g_mul(sk.scalar), sk.scalar);
+    let n = tr_generate_nonce(stream, pos);
+    Signature { R: n.1, z: sc_add(n.0, sc_mul(tr_challenge(n.1, mk_vk(g_mul(d)), m), d)) }
+}
+
 // post_dkg: both packages get the key-path-only tweak (BIP-341: "commit to an unspendable script path": t = hash_TapTweak(bytes(P)))
 pub open spec fn tr_post_dkg(kp: KeyPackage<TR>, p: PublicKeyPackage<TR>) -> Result<(KeyPackage<TR>, PublicKeyPackage<TR>), Error<TR>>
 { Ok((tr_kp_tweak(kp, None), tr_pkp_tweak(p, None))) }
